@@ -373,7 +373,10 @@ def build_func(unit, f, grws):
             if f.range_end == 'END':
                 b = S.toks[loc['body_close']].start
             else:
-                me = re.compile(f.range_end, re.M).search(S.text, m.end(), fb)
+                # the end anchor may sit on the line the start anchor is on (a region that has shrunk to one line)
+                me = re.compile(f.range_end, re.M).search(S.text, a, fb)
+                if me and me.end() < m.end():
+                    me = re.compile(f.range_end, re.M).search(S.text, m.end(), fb)
                 if not me:
                     raise ExtractError('%s: range end anchor %r not found in %s' % (S.path, f.range_end, f.name))
                 b = S.text.find('\n', me.end())
